@@ -403,29 +403,37 @@ impl PersistBackend for FilePersist {
             return Ok(());
         }
 
-        // Handle WAL based on durability mode
-        match self.config.durability_mode {
-            DurabilityMode::Immediate => {
-                // Write to WAL with immediate sync (safest)
-                let mut wal = self.wal.lock();
-                wal.append_batch(shard, updates)?;
-            }
-            DurabilityMode::Batched => {
-                // Write to WAL without sync (faster, batched durability)
-                let mut wal = self.wal.lock();
-                wal.append_batch_buffered(shard, updates)?;
-            }
-            DurabilityMode::Async => {
-                // Skip WAL entirely for maximum speed (in-memory only until flush).
-                // Data WILL be lost on crash. Only use for ephemeral/reproducible data.
-            }
-        }
-
-        #[cfg(inputlayer_verif)]
-        crate::verif_hooks::point("append.after_wal");
-        // Add to buffer
+        // The WAL append and the buffer push must be one step with respect to `flush`:
+        // flush (under `shards.write()`) moves the buffer into a batch file and then drops
+        // the shard's entries from the WAL. If it ran between the two halves of an append,
+        // the entry just written to the WAL was dropped while its update was not yet in the
+        // buffer - the append was then acknowledged with its update living in memory only,
+        // and a crash (or plain shutdown) lost it. Take the shard lock first; `flush` uses
+        // the same `shards` -> `wal` lock order.
         let should_flush = {
             let mut shards = self.shards.write();
+
+            // Handle WAL based on durability mode
+            match self.config.durability_mode {
+                DurabilityMode::Immediate => {
+                    // Write to WAL with immediate sync (safest)
+                    let mut wal = self.wal.lock();
+                    wal.append_batch(shard, updates)?;
+                }
+                DurabilityMode::Batched => {
+                    // Write to WAL without sync (faster, batched durability)
+                    let mut wal = self.wal.lock();
+                    wal.append_batch_buffered(shard, updates)?;
+                }
+                DurabilityMode::Async => {
+                    // Skip WAL entirely for maximum speed (in-memory only until flush).
+                    // Data WILL be lost on crash. Only use for ephemeral/reproducible data.
+                }
+            }
+
+            #[cfg(inputlayer_verif)]
+            crate::verif_hooks::point("append.after_wal");
+            // Add to buffer
             let state = shards
                 .entry(shard.to_string())
                 .or_insert_with(|| ShardState {
